@@ -2,6 +2,7 @@ package main
 
 import (
 	"go/token"
+	"go/types"
 	"strings"
 
 	"golang.org/x/tools/go/ssa"
@@ -79,6 +80,13 @@ func (w *World) evalStr(v ssa.Value, env senv, depth int) sval {
 			}
 		}
 		return leafVal(v)
+	case *ssa.Convert:
+		if isStringType(x.Type()) && isByteSlice(x.X.Type()) {
+			if parts, ok := w.evalBytes(x.X, env, depth+1); ok {
+				return sval{parts: mergeLits(parts)}
+			}
+		}
+		return leafVal(v)
 	case *ssa.Phi:
 		if w.strKeep != nil && x.Parent() == w.strFn {
 			if vals := valuesUnder(w.strFn, x, w.strKeep); len(vals) == 1 {
@@ -97,6 +105,13 @@ func (w *World) evalStr(v ssa.Value, env senv, depth int) sval {
 				return leafVal(v)
 			}
 			return sval{parts: mergeLits(w.renderFormat(fs, args, env, depth))}
+		}
+		// text accumulated in a local strings.Builder / bytes.Buffer by straight-line writes
+		if (name == "(*strings.Builder).String" || name == "(*bytes.Buffer).String") && len(x.Call.Args) == 1 {
+			if parts, ok := w.evalBuilder(x, env, depth); ok {
+				return sval{parts: mergeLits(parts)}
+			}
+			return leafVal(v)
 		}
 		// strconv.Quote(x) is the text %q prints for a string
 		if name == "strconv.Quote" && len(x.Call.Args) == 1 {
@@ -237,4 +252,174 @@ func (w *World) evalStrUnder(fn *ssa.Function, v ssa.Value, keep edgeKeep) sval 
 	w.strKeep, w.strFn = keep, fn
 	defer func() { w.strKeep, w.strFn = nil, nil }()
 	return w.evalStr(v, senv{}, 0)
+}
+
+
+func isByteSlice(t types.Type) bool {
+	sl, ok := t.Underlying().(*types.Slice)
+	if !ok {
+		return false
+	}
+	b, ok := sl.Elem().Underlying().(*types.Basic)
+	return ok && b.Kind() == types.Uint8
+}
+
+// evalBytes renders a []byte built by a chain of appends: make([]byte, 0, n), append(b, 'c'...), append(b, s...),
+// strconv.AppendQuote(b, s), strconv.AppendInt(b, i, 10).
+func (w *World) evalBytes(v ssa.Value, env senv, depth int) ([]spart, bool) {
+	if depth > 12 {
+		return nil, false
+	}
+	v = strip(v)
+	switch x := v.(type) {
+	case *ssa.MakeSlice:
+		if k, ok := constInt(x.Len); ok && k == 0 {
+			return nil, true
+		}
+	case *ssa.Const:
+		if x.IsNil() {
+			return nil, true
+		}
+	case *ssa.Slice:
+		// make([]byte, 0, K) with constant sizes is a view [:0] of a new array
+		if _, isAl := x.X.(*ssa.Alloc); isAl && x.High != nil {
+			if k, ok := constInt(x.High); ok && k == 0 {
+				return nil, true
+			}
+		}
+	case *ssa.Convert:
+		if isStringType(x.X.Type()) {
+			return w.evalStr(x.X, env, depth+1).parts, true
+		}
+	case *ssa.Call:
+		name := w.calleeName(x)
+		a := x.Call.Args
+		switch {
+		case name == "strconv.AppendQuote" && len(a) == 2:
+			pre, ok := w.evalBytes(a[0], env, depth+1)
+			if !ok {
+				return nil, false
+			}
+			sub := w.evalStr(a[1], env, depth+1)
+			if len(sub.parts) == 1 && sub.parts[0].Leaf != nil {
+				pp := sub.parts[0]
+				pp.Verb = "q"
+				return append(pre, pp), true
+			}
+			return append(pre, spart{Leaf: a[1], Verb: "q"}), true
+		case name == "strconv.AppendInt" && len(a) == 3:
+			pre, ok := w.evalBytes(a[0], env, depth+1)
+			if k, isK := constInt(a[2]); !ok || !isK || k != 10 {
+				return nil, false
+			}
+			arg := strip(a[1])
+			if cv, isCv := arg.(*ssa.Convert); isCv && isIntegerType(cv.X.Type()) {
+				arg = strip(cv.X)
+			}
+			return append(pre, spart{Leaf: arg, Verb: "d"}), true
+		case name == "builtin:append" && len(a) == 2:
+			pre, ok := w.evalBytes(a[0], env, depth+1)
+			if !ok {
+				return nil, false
+			}
+			// append(b, s...) with a string or a []byte conversion of one
+			if isStringType(a[1].Type()) {
+				return append(pre, w.evalStr(a[1], env, depth+1).parts...), true
+			}
+			if els := varargs(a[1]); len(els) > 0 {
+				for _, e := range els {
+					k, isK := constInt(e)
+					if !isK || k < 0 || k > 127 {
+						return nil, false
+					}
+					pre = append(pre, spart{Lit: string(rune(k))})
+				}
+				return pre, true
+			}
+			if rest, ok := w.evalBytes(a[1], env, depth+1); ok {
+				return append(pre, rest...), true
+			}
+		}
+	}
+	return nil, false
+}
+
+// evalBuilder renders the text a local strings.Builder (or bytes.Buffer) holds at a String() call: every write to it
+// that is reachable (under the current pruning) must lie on all paths to the call and outside loops, the builder must not
+// escape; the writes are taken in control-flow order.
+func (w *World) evalBuilder(strCall *ssa.Call, env senv, depth int) ([]spart, bool) {
+	recv := strip(strCall.Call.Args[0])
+	al, ok := recv.(*ssa.Alloc)
+	if !ok {
+		return nil, false
+	}
+	fn := strCall.Parent()
+	var keep edgeKeep
+	if w.strKeep != nil && w.strFn == fn {
+		keep = w.strKeep
+	}
+	type wr struct {
+		call  *ssa.Call
+		parts []spart
+	}
+	var writes []wr
+	for _, r := range *al.Referrers() {
+		switch y := r.(type) {
+		case *ssa.DebugRef:
+		case *ssa.Call:
+			if len(y.Call.Args) == 0 || y.Call.Args[0] != ssa.Value(al) || y.Call.IsInvoke() {
+				return nil, false
+			}
+			n := w.calleeName(y)
+			dot := strings.LastIndex(n, ").")
+			if dot < 0 || !(strings.HasPrefix(n, "(*strings.Builder).") || strings.HasPrefix(n, "(*bytes.Buffer).")) {
+				return nil, false
+			}
+			switch n[dot+2:] {
+			case "String", "Len", "Grow", "Cap":
+			case "WriteString":
+				writes = append(writes, wr{y, w.evalStr(y.Call.Args[1], env, depth+1).parts})
+			case "WriteByte", "WriteRune":
+				k, isK := constInt(y.Call.Args[1])
+				if !isK || k < 0 || k > 127 {
+					return nil, false
+				}
+				writes = append(writes, wr{y, []spart{{Lit: string(rune(k))}}})
+			case "Write":
+				bp, ok := w.evalBytes(y.Call.Args[1], env, depth+1)
+				if !ok {
+					return nil, false
+				}
+				writes = append(writes, wr{y, bp})
+			default:
+				return nil, false
+			}
+		default:
+			return nil, false // address taken, stored, passed on: somebody else may write
+		}
+	}
+	var live []wr
+	for _, x := range writes {
+		if !canReach(entryPt(fn), keep, isInstr(x.call), nil) || !canReach(at(x.call), keep, isInstr(strCall), nil) {
+			continue
+		}
+		if canReach(at(x.call), keep, isInstr(x.call), nil) { // in a loop
+			return nil, false
+		}
+		if !mustPrecede(fn, []ssa.Instruction{x.call}, strCall, keep) {
+			return nil, false
+		}
+		live = append(live, x)
+	}
+	// control-flow order: a precedes b when b is reachable from a
+	for i := 1; i < len(live); i++ {
+		for j := i; j > 0 && canReach(at(live[j].call), keep, isInstr(live[j-1].call), nil); j-- {
+			live[j], live[j-1] = live[j-1], live[j]
+		}
+	}
+	var out []spart
+	for _, x := range live {
+		out = append(out, x.parts...)
+	}
+	return out, true
 }
